@@ -24,7 +24,8 @@ SLOTS = {
                  op="str", mp="opath", od="oint"),
     "Inner": dict(x="int", name="str", c="ocfg", d="ocfg", mc="ocfg", oc="ocfg"),
     "Bag": dict(li="lint", lf="olfloat", ls="olstr", lc="lcfg", dc="dcfg", di="odint", ds="odstr", ll="ollint",
-                dd="oddint", ld="oldint", dl="odlcfg", mlc="lcfg", lp="olpath", le="olColor", ddd="odddint"),
+                dd="oddint", ld="oldint", dl="odlcfg", mlc="lcfg", lp="olpath", le="olColor", ddd="odddint",
+                llc="llcfg", dlc="dlcfg"),
     "Req": dict(a="int!", b="str!", c="cfg!"),
     "TaskA": dict(x="int", c="ocfg", l="lcfg"),
     "TaskOut": dict(x="int", c="ocfg"),
@@ -447,18 +448,29 @@ def neutral_edit(rng, desc, g):
                 if cls != "Bag":
                     continue
                 # a new configuration flagged meta, added as list element / dict value
+                where = rng.choice(["lc", "dc", "llc", "llc", "dlc", "dlc"])
+                if where in ("llc", "dlc") and where in kw and not kw[where]["v"]:
+                    continue            # explicitly empty: there is no inner list to add the member to
                 d["nodes"].append(dict(cls="Leaf", kw=[["i", vint(rng.choice([31, 32]))]]))
                 j = len(d["nodes"]) - 1
                 d["actions"].insert(0, dict(a="meta", n=j, flag=True))
-                if rng.random() < 0.5:
+                if where == "lc":
                     cur = copy.deepcopy(kw.get("lc", {"t": "list", "v": []}))
                     cur["v"].insert(rng.randrange(len(cur["v"]) + 1), vref(j))
-                    d["actions"].insert(1, dict(a="set", n=i, name="lc", v=cur))
-                else:
+                elif where == "dc":
                     cur = copy.deepcopy(kw.get("dc", {"t": "dict", "v": []}))
                     key = rng.choice([k for k in ["m", "mm", "b2"] if k not in [x[0] for x in cur["v"]]])
                     cur["v"].insert(rng.randrange(len(cur["v"]) + 1), [key, vref(j)])
-                    d["actions"].insert(1, dict(a="set", n=i, name="dc", v=cur))
+                elif where == "llc":
+                    # two levels down; when the slot is unset its default [[]] is what the member is added to
+                    cur = copy.deepcopy(kw.get("llc", {"t": "list", "v": [{"t": "list", "v": []}]}))
+                    inner = rng.choice(cur["v"])
+                    inner["v"].insert(rng.randrange(len(inner["v"]) + 1), vref(j))
+                else:
+                    cur = copy.deepcopy(kw.get("dlc", {"t": "dict", "v": [["a", {"t": "list", "v": []}]]}))
+                    inner = rng.choice(cur["v"])[1]
+                    inner["v"].insert(rng.randrange(len(inner["v"]) + 1), vref(j))
+                d["actions"].insert(1, dict(a="set", n=i, name=where, v=cur))
                 return d, kind
     return None
 
